@@ -32,6 +32,9 @@ LAWS = [   # documented rewrites: each pair must be reported equivalent
     ("[a:b = 1 AND (a:c = 2 OR a:c = 1)]", "[(a:b = 1 AND a:c = 2) OR (a:b = 1 AND a:c = 1)]", 'distribution of AND over OR (comparison)'),
     ("[a:b = 1] AND ([a:c = 2] OR [a:c = 1])", "([a:b = 1] AND [a:c = 2]) OR ([a:b = 1] AND [a:c = 1])", 'distribution of AND over OR (observation)'),
     ("[a:b = 1] FOLLOWEDBY ([a:c = 2] OR [a:c = 1])", "([a:b = 1] FOLLOWEDBY [a:c = 2]) OR ([a:b = 1] FOLLOWEDBY [a:c = 1])", 'distribution of FOLLOWEDBY over OR'),
+    ("[a:b != 1 AND (a:c = 2 OR a:c = 1)]", "[(a:b != 1 AND a:c = 2) OR (a:b != 1 AND a:c = 1)]", 'distribution of AND over OR keeps negation'),
+    ("[a:b NOT IN (1, 2) AND (a:c = 2 OR a:c = 1)]", "[(a:b NOT IN (1, 2) AND a:c = 2) OR (a:b NOT IN (1, 2) AND a:c = 1)]", 'distribution of AND over OR keeps NOT'),
+    ("[a:b[0].c = 1 AND a:b[0].d = 2]", "[a:b[0].d = 2 AND a:b[0].c = 1]", 'commutativity with indexed paths'),
     ("[a:b IN (1, 2)]", "[a:b IN (2, 1)]", 'order-insensitive set literals'), ("[a:b = 1]", "[a:b = 1.0]", 'numerically equal constants'),
 ]
 
@@ -115,7 +118,57 @@ def run(chk):
         try:
             if not equivalent_patterns(a, b): return (f'laws#documented rewrite recognised:{name}', f'{name}: {a} and {b} are not reported equivalent', {})
         except Exception as ex: return (f'total#never fails:{type(ex).__name__}', f'{name}: raised {ex!r}', {})
-    chk.bounded('documented algebraic rewrites', LAWS, check_law, classify=lambda c: c[2], bound='15 law instances')
+    chk.bounded('documented algebraic rewrites', LAWS, check_law, classify=lambda c: c[2], bound=f'{len(LAWS)} law instances')
+
+    # ---- single-leaf substitutions in every rewrite context: two patterns that differ in one leaf and are reported equivalent must have the same meaning
+    pool = PG.leaf_pool()
+    def kin(l1, l2): return l1[1] == l2[1] or l1[2:] == l2[2:]            # same path, other test -- or same test, other path
+    leaf_pairs = [(l1, l2) for l1, l2 in itertools.combinations(pool, 2) if chk.tier == 'thorough' or kin(l1, l2)]
+
+    def local_sig(t1, t2):
+        paths = sorted(PG.paths_of(t1) | PG.paths_of(t2))
+        obs = [dict((p, v) for p, v in zip(paths, vals) if v is not None) for vals in itertools.product((None, 1, 2), repeat=len(paths))]
+        if len(obs) > 27: obs = obs[::len(obs) // 27 + 1] + [obs[-1]]
+        seqs2 = [[(0, o)] for o in obs] + [[(t0, a), (t1_, b)] for a in obs for b in obs for t0, t1_ in ((0, 1), (5, 0))] + [[(0, a), (1, a), (2, b)] for a in obs[:9] for b in obs[:9]]
+        for sq in seqs2:
+            if matches(t1, sq) != matches(t2, sq): return sq
+        return None
+
+    def subst_cases():
+        for name, ctx in PG.contexts():
+            for l1, l2 in leaf_pairs: yield (name, l1, l2, ctx)
+
+    def check_subst(case):
+        name, l1, l2, ctx = case
+        t1, t2 = ctx(l1), ctx(l2); a, b = show(t1), show(t2)
+        try: e = equivalent_patterns(a, b)
+        except Exception as ex: return (f'total#never fails:{type(ex).__name__}', f'equivalent_patterns({a!r}, {b!r}) raised {type(ex).__name__}: {str(ex)[:100]}', {})
+        if e:
+            w = local_sig(read(a), read(b))
+            if w is not None:
+                what = 'path' if l1[1] != l2[1] else 'negation' if l1[3] != l2[3] and l1[2] == l2[2] else 'test'
+                return (f'sound#reported equivalent but semantics differ:{what} in {name}', f'{a} ~ {b} reported equivalent, but only one of them matches the observation sequence {w}', {'p': a, 'q': b})
+    sc = list(subst_cases())
+    chk.bounded('single-leaf substitutions in every rewrite context', sc, check_subst, classify=lambda c: (c[0], c[1][1] == c[2][1], c[1][2:], c[2][2:]),
+                bound=f'{len(leaf_pairs)} leaf pairs (9 paths incl. index 0/1 steps and continuations x 8 tests; ' + ('all pairs' if chk.tier == 'thorough' else 'same-path or same-test pairs') + f') x {len(PG.contexts())} contexts; meaning compared on all observation sequences of length <= 2 (and a length-3 subset) over the paths of the pair with values absent/1/2')
+
+    # ---- the generic sequence comparator against its specification (lexicographic three-way comparison), element values incl. falsy ones
+    from stix2.equivalence.pattern.compare import iter_lex_cmp, generic_cmp
+    def lex_cases():
+        for alphabet in ((0, 1, 2), ('', 'a', 'b')):
+            seqs_ = [tuple(c) for n in range(4) for c in itertools.product(alphabet, repeat=n)]
+            for s1 in seqs_:
+                for s2 in seqs_: yield (s1, s2)
+
+    def check_lex(case):
+        s1, s2 = case
+        want = (s1 > s2) - (s1 < s2)
+        for mk in (list, iter):
+            try: got = iter_lex_cmp(mk(s1), mk(s2), generic_cmp)
+            except Exception as ex: return ('comparator#iter_lex_cmp never fails', f'iter_lex_cmp({s1}, {s2}) raised {ex!r}', {})
+            if (got > 0) - (got < 0) != want: return ('comparator#iter_lex_cmp is the lexicographic order', f'iter_lex_cmp({s1}, {s2}) = {got}, lexicographic comparison gives {want}', {'seq1': s1, 'seq2': s2})
+    chk.bounded('iter_lex_cmp == lexicographic three-way comparison', list(lex_cases()), check_lex, classify=lambda c: (len(c[0]), len(c[1]), c[0][:1], c[1][:1]),
+                bound='all pairs of sequences of length <= 3 over {0, 1, 2} and over {"", "a", "b"} (falsy elements included), lists and one-shot iterators')
 
     def find_cases():
         for q in sample[:25]: yield q
